@@ -4,14 +4,17 @@
 //!
 //! case format (see lean/EmitModel/Driver/C12.lean):
 //!   (c12 (cfg http|grpc proto|json GZIP LIMIT) (sig LOGS TRACES METRICS) (dead SIGNAL…)
-//!        (events (ev ID log|span|metric xMDL PAD SIZE)…)
+//!        (events (ev ID log|span|metric xMDL PAD SIZE)…)            PAD ::= N | (rnd N)
 //!        (script (logs R…) (traces R…) (metrics R…)) (end flush|drop))
-//!   R ::= ack | ackbody | (status N) | (grpc N) | (grpch N) | stall | rstb | rsta
+//!   R ::= ack | ackbody | (status N) | (grpc N) | (grpch N) | stall | stallh | rstb | rsta
+//!   PAD N = `pad` property of N times 'a'; (rnd N) = N chars of pseudo-random hex text seeded by the id (poorly
+//!   compressible: exercises multi-call gzip output). stallh (gRPC only) = response HEADERS, then silence.
 //!   LIMIT = request size limit (hook H4), PAD = length of the `pad` text property, SIZE = length of the encoded
 //!   event payload (measured by the generator on the real encoder; re-checked on the wire by the runner).
 //!   end: `flush` = call `blocking_flush`; `drop` = drop the emitter instead and wait for its worker thread to end.
 //! output:
-//!   logs=[E…] traces=[E…] metrics=[E…] flush=B|dropped       E ::= <ids joined by , | ?>:<resp>:<n|r>
+//!   logs=[E…] traces=[E…] metrics=[E…] flush=B|dropped       E ::= <ids joined by , | ? | !>:<resp>:<n|r>
+//!   `!` = the body did not validate (inflated length / framing / full decode with the generated types)
 //!   one E per request the endpoint saw, in arrival order; n = arrived on a new connection, r = reused.
 //!
 //! Protocol of one case (deterministic batch composition): per configured live signal a *primer* event is emitted
@@ -49,12 +52,53 @@ enum Kind {
     Metric,
 }
 
+#[derive(Clone, Copy, Debug, PartialEq, Eq)]
+enum Pad {
+    /// n times 'a'
+    Rep(usize),
+    /// n chars of pseudo-random hex text (SplitMix64 seeded by the event id)
+    Rnd(usize),
+}
+
+impl Pad {
+    fn text(self, id: i64) -> String {
+        match self {
+            Pad::Rep(n) => "a".repeat(n),
+            Pad::Rnd(n) => {
+                let mut rng = Rng::new(id as u64 ^ 0x5eed);
+                let mut s = String::with_capacity(n + 16);
+                while s.len() < n {
+                    s.push_str(&format!("{:016x}", rng.next()));
+                }
+                s.truncate(n);
+                s
+            }
+        }
+    }
+    fn to_sexp(self) -> Sexp {
+        match self {
+            Pad::Rep(n) => Sexp::num(n),
+            Pad::Rnd(n) => Sexp::tagged("rnd", vec![Sexp::num(n)]),
+        }
+    }
+    fn parse(s: &Sexp) -> Option<Pad> {
+        if let Some(n) = s.as_usize() {
+            return Some(Pad::Rep(n));
+        }
+        let (t, a) = s.as_tagged()?;
+        if t == "rnd" && a.len() == 1 {
+            return Some(Pad::Rnd(a[0].as_usize()?));
+        }
+        None
+    }
+}
+
 #[derive(Clone, Debug)]
 struct Ev {
     id: i64,
     kind: Kind,
     mdl: String,
-    pad: usize,
+    pad: Pad,
     size: usize,
 }
 
@@ -87,6 +131,7 @@ fn resp_sexp(r: Resp) -> Sexp {
         Resp::GrpcStatus(n) => Sexp::tagged("grpc", vec![Sexp::num(n)]),
         Resp::GrpcStatusHeaders(n) => Sexp::tagged("grpch", vec![Sexp::num(n)]),
         Resp::Stall => Sexp::atom("stall"),
+        Resp::StallAfterHeaders => Sexp::atom("stallh"),
         Resp::ResetBefore => Sexp::atom("rstb"),
         Resp::ResetAfter => Sexp::atom("rsta"),
         Resp::Hold => Sexp::atom("hold"),
@@ -99,6 +144,7 @@ fn resp_parse(s: &Sexp) -> Option<Resp> {
             "ack" => Resp::Ack,
             "ackbody" => Resp::AckBody,
             "stall" => Resp::Stall,
+            "stallh" => Resp::StallAfterHeaders,
             "rstb" => Resp::ResetBefore,
             "rsta" => Resp::ResetAfter,
             _ => return None,
@@ -131,6 +177,7 @@ fn resp_show(r: Resp) -> String {
         Resp::GrpcStatus(n) => format!("grpc{}", n),
         Resp::GrpcStatusHeaders(n) => format!("grpch{}", n),
         Resp::Stall => "stall".into(),
+        Resp::StallAfterHeaders => "stallh".into(),
         Resp::ResetBefore => "rstb".into(),
         Resp::ResetAfter => "rsta".into(),
         Resp::Hold => "hold".into(),
@@ -169,7 +216,7 @@ impl Case {
                                         Kind::Metric => "metric",
                                     }),
                                     Sexp::str(&e.mdl),
-                                    Sexp::num(e.pad),
+                                    e.pad.to_sexp(),
                                     Sexp::num(e.size),
                                 ],
                             )
@@ -261,7 +308,7 @@ impl Case {
                     _ => return None,
                 },
                 mdl: f[2].as_string()?,
-                pad: f[3].as_usize()?,
+                pad: Pad::parse(&f[3])?,
                 size: f[4].as_usize()?,
             });
         }
@@ -277,8 +324,8 @@ impl Case {
             }
             script[i] = rs.iter().map(resp_parse).collect::<Option<Vec<_>>>()?;
         }
-        if transport == Transport::Http && script.iter().flatten().any(|r| matches!(r, Resp::GrpcStatus(_) | Resp::GrpcStatusHeaders(_))) {
-            return None; // an OTLP/HTTP endpoint does not speak grpc-status
+        if transport == Transport::Http && script.iter().flatten().any(|r| matches!(r, Resp::GrpcStatus(_) | Resp::GrpcStatusHeaders(_) | Resp::StallAfterHeaders)) {
+            return None; // an OTLP/HTTP endpoint does not speak grpc-status; the HTTP path never reads the response body
         }
         Some(Case { transport, enc, gzip, limit, sig, dead, events, script, drop })
     }
@@ -339,7 +386,7 @@ fn build_otlp(c: &Collector, transport: Transport, enc: Enc, gzip: bool, sig: [b
     b.spawn()
 }
 
-fn emit_event(otlp: &emit_otlp::Otlp, id: i64, kind: Kind, mdl: &str, pad: usize) {
+fn emit_event(otlp: &emit_otlp::Otlp, id: i64, kind: Kind, mdl: &str, pad: Pad) {
     let mut props: Vec<(String, V)> = Vec::new();
     let ext;
     match kind {
@@ -359,7 +406,7 @@ fn emit_event(otlp: &emit_otlp::Otlp, id: i64, kind: Kind, mdl: &str, pad: usize
         }
     }
     props.push(("id".into(), V::I64(id)));
-    props.push(("pad".into(), V::Str("a".repeat(pad))));
+    props.push(("pad".into(), V::Str(pad.text(id))));
     evt::with_event(mdl, &ext, &props, |e| otlp.emit(e));
 }
 
@@ -371,6 +418,17 @@ fn set_hooks(limit: usize, timeout: Duration) {
 
 const REQUEST_TIMEOUT: Duration = Duration::from_millis(400);
 const LONG: Duration = Duration::from_secs(30);
+/// Set once a case of this process did not finish in its budget: the emitter under test can hang, and every
+/// further hang should cost little (a check run over a hanging emitter, shrinking included, must stay feasible).
+static SEEN_HANG: std::sync::atomic::AtomicBool = std::sync::atomic::AtomicBool::new(false);
+
+/// How long a case may take to flush / wind down. A healthy case needs milliseconds plus the request timeout per
+/// scripted stall; the base is generous (machine load) until a first hang was seen in this process.
+fn flush_budget(case: &Case) -> Duration {
+    let stalls = case.script.iter().flatten().filter(|r| matches!(r, Resp::Stall | Resp::StallAfterHeaders)).count() as u32;
+    let base = if SEEN_HANG.load(std::sync::atomic::Ordering::Relaxed) { Duration::from_millis(700) } else { Duration::from_secs(8) };
+    base + (REQUEST_TIMEOUT + Duration::from_millis(100)) * stalls
+}
 
 // ------------------------------------------------------------------ runner
 
@@ -409,6 +467,7 @@ fn wait_workers_gone(timeout: Duration) -> bool {
 
 fn show_entry(r: &Recorded, fresh: bool) -> String {
     let ids = match &r.records {
+        _ if r.malformed.is_some() => "!".to_string(),
         None => "?".to_string(),
         Some(recs) => {
             let mut ids: Vec<i64> = recs.iter().map(|x| x.id.unwrap_or(0)).collect();
@@ -423,6 +482,7 @@ fn run_c12(line: &str) -> String {
     let Some(case) = Case::parse(line) else { return "bad-case".into() };
     let c = collector();
     let _ = baseline_threads();
+    c.kill_connections(); // nothing of an earlier case may linger
     // phase 1: park every live worker on a primer request
     set_hooks(usize::MAX, LONG);
     let mut scripts: HashMap<Signal, VecDeque<Resp>> = HashMap::new();
@@ -435,7 +495,7 @@ fn run_c12(line: &str) -> String {
     let mut primers = 0;
     for (i, k) in [Kind::Log, Kind::Span, Kind::Metric].into_iter().enumerate() {
         if case.sig[i] && !case.dead[i] {
-            emit_event(&otlp, -(i as i64) - 1, k, "hotlp::primer", 0);
+            emit_event(&otlp, -(i as i64) - 1, k, "hotlp::primer", Pad::Rep(0));
             primers += 1;
         }
     }
@@ -451,25 +511,40 @@ fn run_c12(line: &str) -> String {
     let discarded = otlp.metric_source().event_discarded() - discarded0;
     let m = otlp.metric_source();
     let flushed;
+    let budget = flush_budget(&case);
     if case.drop {
         // the emitter goes away with everything still queued; its worker must finish the work on its own
         drop(otlp);
         c.release();
-        flushed = wait_workers_gone(LONG);
-        if !flushed {
-            return "harness-error:worker-thread-did-not-end".into();
-        }
+        flushed = wait_workers_gone(budget);
     } else {
         c.release();
-        flushed = otlp.blocking_flush(LONG);
+        flushed = otlp.blocking_flush(budget);
         drop(otlp);
     }
     let log = c.take_log();
+    if !flushed {
+        // a worker is stuck: cut its connections so that it winds down before the next case starts
+        SEEN_HANG.store(true, std::sync::atomic::Ordering::Relaxed);
+        c.reset(HashMap::new(), false);
+        c.kill_connections();
+        wait_workers_gone(Duration::from_secs(2));
+        c.kill_connections();
+        if case.drop {
+            set_hooks(usize::MAX, LONG);
+            return "worker-thread-did-not-end".into();
+        }
+    }
     let client_failures = m.transport_request_failed() + m.transport_conn_failed() + m.http_batch_failed() + m.grpc_batch_failed();
     set_hooks(usize::MAX, LONG);
 
     // ---- canonical output + the property evaluated on the observations alone
     let mut fail: Option<String> = None;
+    if !flushed {
+        // "flush reports success only after all of this has happened" - and it must happen: every failure mode,
+        // a stall at any point of the exchange included, ends in a timeout, a retry and finally a delivery
+        fail = Some("flush-did-not-return-within-budget(some-request-never-completed-or-timed-out)".into());
+    }
     let mut out = String::new();
     let by_id: HashMap<i64, &Ev> = case.events.iter().map(|e| (e.id, e)).collect();
     for s in Signal::ALL {
@@ -602,7 +677,8 @@ fn gen_resp(rng: &mut Rng, transport: Transport, tier: Tier) -> Resp {
     // reading, timeout (stall; rare — each costs the request timeout)
     let stall_den = if tier == Tier::Thorough { 6 } else { 12 };
     if rng.chance(1, stall_den) {
-        return Resp::Stall;
+        // a stall at any point of the exchange is a timeout: before any answer, or (gRPC) after the headers
+        return if transport == Transport::Grpc && rng.bool() { Resp::StallAfterHeaders } else { Resp::Stall };
     }
     match transport {
         Transport::Http => match rng.below(6) {
@@ -669,13 +745,21 @@ fn gen_case(rng: &mut Rng, tier: Tier, next_id: &mut i64) -> Case {
             kind: if !routable.is_empty() && rng.chance(5, 6) { *rng.pick(&routable) } else { *rng.pick(&[Kind::Log, Kind::Span, Kind::Metric]) },
             mdl: if rng.chance(3, 4) { mdls[0].to_string() } else { mdls[1].to_string() },
             pad: match rng.below(4) {
-                0 => 0,
-                1 => rng.range(1, 40) as usize,
-                2 => rng.range(100, 400) as usize,
-                _ => rng.range(1, 1500) as usize,
+                0 => Pad::Rep(0),
+                1 => Pad::Rep(rng.range(1, 40) as usize),
+                2 => Pad::Rep(rng.range(100, 400) as usize),
+                _ => Pad::Rep(rng.range(1, 1500) as usize),
             },
             size: 0,
         });
+    }
+    // large, poorly compressible payloads (64-512 KiB of pseudo-random hex text): request bodies whose gzip
+    // form spans many compressor output buffers, with gzip on and off
+    if !events.is_empty() && rng.chance(1, 10) {
+        for _ in 0..rng.range(1, 2) {
+            let i = rng.usize(events.len());
+            events[i].pad = Pad::Rnd(rng.range(64 * 1024, 512 * 1024) as usize);
+        }
     }
     let mut script: [Vec<Resp>; 3] = Default::default();
     let failing = rng.chance(1, 3);
